@@ -2764,3 +2764,43 @@ Section System.
     unfold filt in Hp. apply filter_In in Hp. destruct Hp as [_ Hp]. apply Z.eqb_eq in Hp. exact Hp.
   Qed.
 End System.
+
+(* ------------------------------------------------------------------------ *)
+(* 14. the unrestricted statement is false: the finding                       *)
+(* A POST whose response is block-wise.  The client ends up asking for block 0 *)
+(* of the response again (witness 1: an old response block meets a new Do that *)
+(* reuses the token; witness 2: the resource changed, the ETag differs, the    *)
+(* reassembly restarts) with a request that has the code and options of the    *)
+(* POST but no body; a server that no longer holds the response hands that     *)
+(* body-less POST to its application.                                          *)
+Definition refute_cfg1 : cfg := Cfg 0 1152 0 1152 [X 0 2 7 0 5 5 None] [R 11 40 false 42] [].
+Definition refute_es1 : list ev :=
+  [Start 0; Deliver 0; Deliver 0; Deliver 0; Deliver 0; Deliver 0; Deliver 0; Start 0; Replay 3; Deliver 1]%nat.
+Definition refute_cfg2 : cfg := Cfg 0 1152 0 1152 [X 0 2 7 0 5 5 None] [R 11 20 true 42] [].
+Definition refute_es2 : list ev :=
+  [Start 0; Deliver 0; Deliver 0; Deliver 0; Bump 0; Replay 0; Replay 2; Deliver 2; Deliver 2]%nat.
+
+Lemma one_exch_wf sA mA sB mB x r :
+  0 <= sA <= 7 -> 0 <= sB <= 7 -> 0 <= mA -> 0 <= mB ->
+  (xkind x = 0 \/ xkind x = 1) -> GET <= xcode x <= DELETE -> 0 <= xtok x < FRESH -> 0 <= xlen x ->
+  (is_upload (xcode x) = false -> xlen x = 0) -> 0 <= rlen r ->
+  cfg_wf (Cfg sA mA sB mB [x] [r] []).
+Proof.
+  intros. constructor; cbn [cszxA cszxB cmaxA cmaxB cexch cres coutside]; try assumption.
+  - intros y [<-|[]]. auto.
+  - intros y z [<-|[]] [<-|[]] _. reflexivity.
+  - intros y _. reflexivity.
+  - intros y [<-|[]]. assumption.
+Qed.
+
+Theorem exchange_safety_unrestricted_refuted :
+  (cfg_wf refute_cfg1 /\ Forall (bump_ok refute_cfg1) refute_es1 /\
+   c04_class refute_cfg1 refute_es1 (model_obs refute_cfg1 refute_es1) = 1%N) /\
+  (cfg_wf refute_cfg2 /\ Forall (bump_ok refute_cfg2) refute_es2 /\
+   c04_class refute_cfg2 refute_es2 (model_obs refute_cfg2 refute_es2) = 1%N).
+Proof.
+  split; (split; [apply one_exch_wf; cbn; unfold GET, DELETE, FRESH; try lia; try (intros; discriminate); auto|]).
+  - split; [repeat constructor|vm_compute; reflexivity].
+  - split; [|vm_compute; reflexivity].
+    repeat (constructor; try exact I). cbn. intros r E. destruct (Z.to_nat 0) eqn:Z0; cbn in E; [injection E as <-; reflexivity|discriminate].
+Qed.
